@@ -220,6 +220,9 @@ func hostileStreams(tier string, seed uint64, originAddr string) []stream {
 		add("long-method", l, "fin", rep("M", 70000), []byte(" / HTTP/1.1\r\n\r\n"))
 		add("control-chars-in-url", l, "fin", []byte("GET http://"+originAddr+"/\x7f\x00\x1b HTTP/1.1\r\nHost: x\r\n\r\n"))
 		add("url-bad-escape", l, "fin", []byte("GET http://"+originAddr+"/%zz%% HTTP/1.1\r\nHost: x\r\n\r\n"))
+		add("invalid-utf8-host-get", l, "fin", []byte("GET http://127\x920.0.1:8080/ HTTP/1.1\r\nHost: x\r\n\r\n"))
+		add("invalid-utf8-host-connect", l, "fin", []byte("CONNECT exa\xffmple.invalid:443 HTTP/1.1\r\nHost: exa\xffmple.invalid:443\r\n\r\n"))
+		add("invalid-utf8-host-header-only", l, "fin", []byte("GET / HTTP/1.1\r\nHost: \xc3\x28.invalid\r\n\r\n"))
 		add("connect-bad-target", l, "fin", []byte("CONNECT :::::999999 HTTP/1.1\r\nHost: x\r\n\r\n"))
 		add("connect-no-port", l, "fin", []byte("CONNECT example.invalid HTTP/1.1\r\nHost: example.invalid\r\n\r\n"))
 		add("connect-then-garbage", l, "fin", []byte("CONNECT "+originAddr+" HTTP/1.1\r\nHost: "+originAddr+"\r\n\r\n"), []byte("\x16\x03\x01\xff\xff"), rep("\x00", 70000))
